@@ -72,7 +72,7 @@ def cases(draw, tier="quick"):
     # "late": how many of the records (with all their synonyms) are registered only AFTER the apps have been built and
     # have already served every request once - the apps must serve their converter as it is at request time
     late = draw(st.sampled_from([0, 0, 1, 2]))
-    return {"spec": {"delimiter": d, "records": recs}, "requests": reqs, "late": min(late, n)}
+    return {"spec": {"delimiter": d, "records": recs}, "requests": reqs, "late": min(late, n), "sibling": draw(st.integers(0, 3)) == 0}
 
 
 def check(case, stats: Stats) -> None:
@@ -135,9 +135,33 @@ def check(case, stats: Stats) -> None:
             stats.cls("known" if want is not None else "unknown")
             if klass:
                 stats.nontrivial({"records": recs, "delimiter": d, "path": path}, klass + ("" if want is not None else "-unknown-prefix"))
+        if case.get("sibling") and recs and "sibsyn" not in model.all_prefixes():
+            _sibling_arm(conv, recs, d, flask_client, fast_client, stats)
+
+
+def _sibling_arm(conv, recs, d, flask_client, fast_client, stats):
+    """A second converter built from the SAME Record objects is extended by a merge. The app's own converter never learnt
+    the new synonym (its lookup tables are untouched), so whatever `converter.expand` says - here: unknown - is what both
+    frameworks must answer: the resolver redirects exactly where expand points, and both frameworks agree."""
+    sibling = Converter(conv.records, delimiter="/" if d == ":" else ":")
+    r0 = recs[0]
+    sibling.add_prefix(r0["prefix"], r0["uri_prefix"], prefix_synonyms=["sibsyn"], merge=True)
+    for p in ("sibsyn", r0["prefix"]):
+        path = "/" + p + d + "1"
+        want = conv.expand(p + d + "1")
+        exp = (302, want) if want is not None else (422, None)
+        r1 = flask_client.get(path, follow_redirects=False)
+        r2 = fast_client.get(path, follow_redirects=False)
+        got1, got2 = (r1.status_code, r1.headers.get("Location")), (r2.status_code, r2.headers.get("location"))
+        stats.ev()
+        if got1 != got2:
+            raise Violation(f"after a sibling converter sharing the records was extended: Flask {got1!r} and FastAPI {got2!r} disagree on GET {path!r}")
+        if got1 != exp:
+            raise Violation(f"after a sibling converter sharing the records was extended: GET {path!r} -> {got1!r}, converter.expand says {exp!r}")
+    stats.cls("sibling-converter-extended")
 
 
 SUBS = [
-    Sub(name="resolver", check=check, strategy=lambda tier: cases(tier), n={"quick": 500, "thorough": 1200},
+    Sub(name="resolver", check=check, strategy=lambda tier: cases(tier), n={"quick": 400, "thorough": 1200},
         required_classes=("known", "unknown", "nt:identifier-contains-delimiter", "nt:identifier-contains-slash", "nt:synonym-prefix", "converter-extended-after-app-built")),
 ]
